@@ -39,6 +39,28 @@ func TestMain(m *testing.M) {
 	kit.Main(m, "C16")
 }
 
+// OptCall is one SetOption call: an option of the post-data family (request
+// bodies) or of the body family (response bodies).
+type OptCall struct {
+	Post bool          `json:"post,omitempty"`
+	Opt  msggen.HarOpt `json:"opt"`
+}
+
+// effective is what a history of SetOption calls amounts to: every option
+// replaces the logger's decision for its family, so the last call of a family
+// counts; a family never configured logs everything (NewLogger's default).
+func effective(hist []OptCall) (post, body msggen.HarOpt) {
+	post, body = msggen.HarOpt{Mode: "all"}, msggen.HarOpt{Mode: "all"}
+	for _, h := range hist {
+		if h.Post {
+			post = h.Opt
+		} else {
+			body = h.Opt
+		}
+	}
+	return post, body
+}
+
 // Case is one exchange and one logger configuration.
 type Case struct {
 	Req     msggen.Spec   `json:"req"`
@@ -46,6 +68,10 @@ type Case struct {
 	Post    msggen.HarOpt `json:"post"`
 	Body    msggen.HarOpt `json:"body"`
 	Handler bool          `json:"handler,omitempty"` // JSON taken from the export handler instead of json.Marshal(Export())
+	// Hist, when not empty, is the history of SetOption calls made on the
+	// logger before the exchange; Post and Body are then what it amounts to.
+	Hist    []OptCall `json:"hist,omitempty"`
+	OneCall bool      `json:"one_call,omitempty"` // the whole history is passed to a single SetOption call
 }
 
 // ---------------------------------------------------------------- helpers
@@ -157,7 +183,22 @@ func run(c Case) (v kit.Verdict) {
 	defer remove()
 
 	l := har.NewLogger()
-	l.SetOption(c.Post.Option(true), c.Body.Option(false))
+	if len(c.Hist) > 0 {
+		c.Post, c.Body = effective(c.Hist)
+		var opts []har.Option
+		for _, h := range c.Hist {
+			opts = append(opts, h.Opt.Option(h.Post))
+		}
+		if c.OneCall {
+			l.SetOption(opts...)
+		} else {
+			for _, o := range opts {
+				l.SetOption(o)
+			}
+		}
+	} else {
+		l.SetOption(c.Post.Option(true), c.Body.Option(false))
+	}
 	reqErr := l.ModifyRequest(req)
 
 	res, err := http.ReadResponse(bufio.NewReader(bytes.NewReader(ms.Wire)), req)
@@ -279,9 +320,15 @@ func checkRequest(c Case, m *msggen.Message, r *har.Request) (v kit.Verdict) {
 		v.Addf("C16/postdata/"+shape+"/mime-type-differs", "postData.mimeType %q for Content-Type %q", pd.MimeType, m.ContentType)
 	}
 	if !captured {
-		if pd.Text != "" || len(pd.Params) != 0 {
+		if (pd.Text != "" || len(pd.Params) != 0) && len(c.Hist) > 0 {
+			v.Addf("C16/capture/option-history/post-data-captured-against-last-option", "after the SetOption history %+v post data logging is off for %q, yet text=%s params=%d", c.Hist, m.ContentType, short([]byte(pd.Text)), len(pd.Params))
+		} else if pd.Text != "" || len(pd.Params) != 0 {
 			v.Addf("C16/postdata/"+shape+"/captured-against-option", "post data logging is off for %q (option %+v), yet text=%s params=%d", m.ContentType, c.Post, short([]byte(pd.Text)), len(pd.Params))
 		}
+		return v
+	}
+	if len(c.Hist) > 0 && pd.Text == "" && len(pd.Params) == 0 && (m.FormKind == "" || len(m.Params) > 0) {
+		v.Addf("C16/capture/option-history/post-data-not-captured-despite-last-option", "after the SetOption history %+v post data logging is on for %q, yet postData has neither text nor params (%d body bytes)", c.Hist, m.ContentType, len(m.Entity))
 		return v
 	}
 	switch m.FormKind {
@@ -381,13 +428,17 @@ func checkResponse(c Case, m *msggen.Message, r *har.Response) (v kit.Verdict) {
 		v.Addf("C16/content/"+shape+"/mime-type-differs", "content.mimeType %q, Content-Type is %q", ct.MimeType, m.ContentType)
 	}
 	if !c.Body.Captures(m.ContentType) {
-		if len(ct.Text) != 0 {
+		if len(ct.Text) != 0 && len(c.Hist) > 0 {
+			v.Addf("C16/capture/option-history/body-captured-against-last-option", "after the SetOption history %+v body logging is off for %q, yet content.text has %d bytes", c.Hist, m.ContentType, len(ct.Text))
+		} else if len(ct.Text) != 0 {
 			v.Addf("C16/content/"+shape+"/captured-against-option", "body logging is off for %q (option %+v), yet content.text has %d bytes", m.ContentType, c.Body, len(ct.Text))
 		}
 		return v
 	}
 	exp := expectedContent(m)
-	if !bytes.Equal(ct.Text, exp) {
+	if len(c.Hist) > 0 && len(exp) > 0 && len(ct.Text) == 0 && ct.Size == 0 {
+		v.Addf("C16/capture/option-history/body-not-captured-despite-last-option", "after the SetOption history %+v body logging is on for %q, yet content.text is empty (%d bytes expected)", c.Hist, m.ContentType, len(exp))
+	} else if !bytes.Equal(ct.Text, exp) {
 		class := "text-differs"
 		if m.Decodable && bytes.Equal(ct.Text, m.Entity) {
 			class = "not-decoded"
@@ -532,6 +583,15 @@ func gen(t *rapid.T) Case {
 	c.Res = msggen.DrawResponse(t, o, c.Req.Method)
 	c.Post, c.Body = msggen.DrawHarOpt(t, "post"), msggen.DrawHarOpt(t, "body")
 	c.Handler = rapid.Bool().Draw(t, "handler")
+	if rapid.Bool().Draw(t, "history") {
+		// a history of 1..4 SetOption calls; the last call of a family counts
+		n := rapid.IntRange(1, 4).Draw(t, "ncalls")
+		for i := 0; i < n; i++ {
+			c.Hist = append(c.Hist, OptCall{Post: rapid.Bool().Draw(t, "family_post"), Opt: msggen.DrawHarOpt(t, "call")})
+		}
+		c.OneCall = rapid.IntRange(0, 3).Draw(t, "one_call") == 0
+		c.Post, c.Body = effective(c.Hist)
+	}
 	return c
 }
 
@@ -614,6 +674,20 @@ func classes(c Case) []string {
 	if c.Handler {
 		cl = append(cl, "through-export-handler")
 	}
+	if len(c.Hist) > 0 {
+		cl = append(cl, "option-history")
+		np, nb := 0, 0
+		for _, h := range c.Hist {
+			if h.Post {
+				np++
+			} else {
+				nb++
+			}
+		}
+		if np > 1 || nb > 1 {
+			cl = append(cl, "option-overridden")
+		}
+	}
 	if c.Req.Body.Size >= 4097 || c.Res.Body.Size >= 4097 {
 		cl = append(cl, "body>=4097")
 	}
@@ -628,12 +702,12 @@ var propEntry = &kit.Prop[Case]{
 	Gates: map[string]float64{
 		"nontrivial": 0.6, "chunked-request": 0.1, "chunked-urlencoded": 0.01, "compressed-response": 0.15, "compressed-chunked-response": 0.03,
 		"non-utf8": 0.2, "non-utf8-param": 0.03, "req-body-multipart": 0.05, "req-body-form": 0.05, "post-optin": 0.08, "body-optout": 0.08,
-		"query": 0.3, "request-cookies": 0.15, "response-cookies": 0.15, "redirect": 0.08, "through-export-handler": 0.3,
+		"query": 0.3, "request-cookies": 0.15, "response-cookies": 0.15, "redirect": 0.08, "through-export-handler": 0.3, "option-history": 0.3, "option-overridden": 0.12,
 	},
 }
 
 var propMatrix = &kit.Prop[Case]{
-	ID: "C16", Name: "matrix", Rule: "ALL combinations of request body {none, text, binary, urlencoded, urlencoded with a non-UTF-8 value, multipart, multipart with a binary file part} x request framing {Content-Length, chunked in one / many chunks} x response {200 identity, gzip, deflate, br, GZIP, gzip+chunked, 206 gzip, 302, 204, 304 with Content-Encoding} x request method {POST, HEAD} x options {all, none}: " + rule,
+	ID: "C16", Name: "matrix", Rule: "ALL combinations of request body {none, text, binary, urlencoded, urlencoded with a non-UTF-8 value, multipart, multipart with a binary file part} x request framing {Content-Length, chunked in one / many chunks} x response {200 identity, gzip, deflate, br, GZIP, gzip+chunked, 206 gzip, 302, 204, 304 with Content-Encoding} x request method {POST, HEAD} x options {all, none}, plus 10 option histories (opt-out then all, opt-in then opt-out, none then opt-in, ... for both families) x image/text response x separate/single SetOption call: " + rule,
 	Run: run, NonTrivial: nontrivial, Classes: classes,
 }
 
@@ -680,6 +754,33 @@ func matrix(yield func(Case) bool) {
 							return
 						}
 					}
+				}
+			}
+		}
+	}
+	// option histories: a later option of a family replaces the earlier one
+	img := msggen.Spec{Status: 200, Framing: "cl", ContentType: "image/png", Body: msggen.Body{Kind: "binary", Size: 64, Seed: 5}}
+	txt := msggen.Spec{Status: 200, Framing: "cl", ContentType: "text/plain", Body: msggen.Body{Kind: "text", Size: 64, Seed: 6}}
+	jsn := msggen.Spec{Method: "POST", Host: "example.com", Path: "/", Framing: "cl", ContentType: "application/json", Body: msggen.Body{Kind: "json", Size: 40, Seed: 7}}
+	opt := func(mode string, types ...string) msggen.HarOpt { return msggen.HarOpt{Mode: mode, Types: types} }
+	for _, hist := range [][]OptCall{
+		{{false, opt("optout", "image/")}, {false, opt("all")}},
+		{{false, opt("optin", "text/")}, {false, opt("optout", "application/json")}},
+		{{false, opt("optin", "text/")}, {false, opt("all")}},
+		{{false, opt("optout", "image/")}, {false, opt("optin", "image/")}},
+		{{false, opt("none")}, {false, opt("optout", "text/")}},
+		{{false, opt("all")}, {false, opt("none")}},
+		{{true, opt("optout", "application/json")}, {true, opt("all")}},
+		{{true, opt("optin", "text/")}, {true, opt("optout", "multipart/")}},
+		{{true, opt("none")}, {true, opt("optin", "application/json")}},
+		{{true, opt("optin", "application/json")}, {false, opt("optout", "image/")}, {true, opt("none")}, {false, opt("all")}},
+	} {
+		for _, res := range []msggen.Spec{img, txt} {
+			for _, one := range []bool{false, true} {
+				c := Case{Req: jsn, Res: res, Hist: hist, OneCall: one}
+				c.Post, c.Body = effective(hist)
+				if !yield(c) {
+					return
 				}
 			}
 		}
